@@ -149,7 +149,7 @@ Lemma ps_step_inv : forall m theta st s a, wf_mdp m -> theta == 0 -> (s < nS m)%
 Proof.
   intros m theta st s a Hwf Hth Hs Ha (Hlv & Hsh & Hvm & Hqr & Hdone).
   assert (HnA : (0 < nA m)%nat) by (destruct Hwf as (_ & ? & _); assumption).
-  unfold ps_step.
+  unfold ps_step, ps_step_with.
   set (v := ps_v st) in *. set (q := ps_q st) in *.
   set (x := nthq (row (R m) s) a + dot (trow m s a) (vscale (gam m) v)).
   set (q' := upd2 q s a x).
@@ -224,7 +224,7 @@ Qed.
 Lemma ps_batch_inv : forall m theta n st ch st', wf_mdp m -> theta == 0 -> ps_inv m st ->
   ps_batch m theta n st ch = PsOk st' -> ps_inv m st'.
 Proof.
-  intros m theta n. induction n as [|n IH]; intros st ch st' Hwf Hth Hinv H; cbn [ps_batch] in H.
+  intros m theta n. unfold ps_batch. induction n as [|n IH]; intros st ch st' Hwf Hth Hinv H; cbn [ps_batch_with] in H.
   - inversion H; subst; exact Hinv.
   - destruct (ps_queue st) as [|e qu] eqn:Eq; [inversion H; subst; exact Hinv|]. rewrite <- Eq in *.
     destruct ch as [|k rest]; [discriminate|].
